@@ -34,7 +34,11 @@ RULE = (
     "underscore; :readers brings no macro); hy.eval sees the module table as it is at that moment of the run (whole file "
     "compiled first, definitions repeated at run time), never local macros. Also compared: the module's final _hy_macros key "
     "set, and the sequence of core-shadow RuntimeWarnings (expected for each definition/required name equal to a core macro "
-    "unless the innermost enclosing scope with a pragma setting says False). Non-trivial = a name known to >=2 namespaces is "
+    "unless the innermost enclosing scope with a pragma setting says False). (5) sessions: one module fed input by input to "
+    "one hy.REPL (one long-lived compiler): module-level defmacro, calls, and inputs that define a local macro of a pooled name "
+    "inside defn/fn/class/lfor or two nested scopes and then either call it or hit a compile-time error (7 kinds, incl. a raising "
+    "local macro) in that scope; every later call must give the module macro's text or NameError and the final _hy_macros must be "
+    "the module-level definitions (grid: scope x error x defined before/after/never; plus random sessions). Non-trivial = a name known to >=2 namespaces is "
     "called after a local scope that defined it closed, or macros= shadows a module/core macro; distinct by the rendered history"
 )
 ASSUMPTIONS = [
@@ -61,6 +65,8 @@ BUDGET_THOROUGH = 1500
 def check_case(case):
     if not isinstance(case, dict):
         return None
+    if "session" in case:
+        return check_session(case)
     plan, obs, mism = M.run(case)
     if not mism:
         return None
@@ -99,6 +105,20 @@ def shrink(case, same, budget):
     from vf import core
 
     case = json.loads(json.dumps(case))
+    if "session" in case:  # drop steps one at a time while the same bucket fails
+        steps = case["session"]
+        i = 0
+        while i < len(steps):
+            cand = steps[:i] + steps[i + 1:]
+            try:
+                ok = bool(cand) and same(dict(session=cand))
+            except Exception:
+                ok = False
+            if ok:
+                steps = cand
+            else:
+                i += 1
+        return dict(session=steps)
     focus = case.pop("focus", None)
     if focus is not None:  # keep the focus out of the reducer's reach
         inner = same
@@ -121,6 +141,154 @@ def shrink(case, same, budget):
         if isinstance(h, dict) and h.get("via") != "export":
             h["via"] = "setv"
     return dict(small, focus=focus) if focus else small
+
+
+# ---------------------------------------------------------------------------------------------------------
+# sessions: one module compiled input by input with one long-lived compiler (hy.REPL), some inputs failing to compile
+
+SESSION_NAMES = ["m1", "m2", "k-x"]
+SESSION_SCOPES = ["defn", "fn", "class", "lfor", "class>defn", "defn>fn", "defn>lfor"]
+SESSION_ERRORS = [None, "(if)", "(setv 1)", "(fn)", "(let [x])", "(do (defmacro bz [] (/ 1 0)) (bz))", "[1 (setv x)]"]
+
+
+def _session_scoped(kind, body, n):
+    """source of one input that evaluates `body` (a list of forms, the last one giving the value) inside the scope(s)"""
+    parts = kind.split(">")
+    k = parts[-1]
+    forms = " ".join(body)
+    if k == "defn":
+        inner, use = "(defn f%d [] %s)" % (n, forms), "(f%d)" % n
+    elif k == "fn":
+        inner, use = "(setv f%d (fn [] %s))" % (n, forms), "(f%d)" % n
+    elif k == "class":
+        inner, use = "(defclass K%d [] %s (setv r %s))" % (n, " ".join(body[:-1]), body[-1]), "K%d.r" % n
+    else:
+        inner, use = "(setv l%d (lfor x [1] (do %s)))" % (n, forms), "(get l%d 0)" % n
+    if len(parts) == 2:
+        if parts[0] == "class":
+            return "(defclass O%d [] %s (setv r %s)) O%d.r" % (n, inner, use, n)
+        return "(defn o%d [] %s %s) (o%d)" % (n, inner, use, n)
+    return "%s %s" % (inner, use)
+
+
+def render_session(steps):
+    """-> [(source, expectation)], final module macro names; expectation = ("value", text) | ("error", "compile" | "name")"""
+    mod = {}
+    out = []
+    for n, st in enumerate(steps):
+        op = st[0]
+        if op == "def":
+            name, v = st[1], "mod-%s-%d" % (st[1], n)
+            out.append(('(defmacro %s [] "%s") "ok%d"' % (name, v, n), ("value", "ok%d" % n)))
+            mod[name] = v
+        elif op == "call":
+            name = st[1]
+            out.append(("(%s)" % name, ("value", mod[name]) if name in mod else ("error", "name")))
+        else:  # ["scoped", kind, name, error index]
+            kind, name, err = st[1], st[2], SESSION_ERRORS[st[3] % len(SESSION_ERRORS)]
+            v = "loc-%s-%d" % (name, n)
+            body = ['(defmacro %s [] "%s")' % (name, v)]
+            if err:
+                body.append(err)
+            body.append("(%s)" % name)
+            out.append((_session_scoped(kind, body, n), ("error", "compile") if err else ("value", v)))
+    return out, set(mod)
+
+
+def check_session(case):
+    import contextlib
+    import io
+    import linecache
+    import sys
+
+    import hy
+    from hy.errors import HyLanguageError
+    from hy.repl import REPL
+
+    plan, final = render_session(case["session"])
+    _SESSION_N[0] += 1
+    name = "c35_session_%d" % _SESSION_N[0]
+    saved = {k: getattr(sys, k) for k in ("last_exc", "last_type", "last_value", "last_traceback") if hasattr(sys, k)}
+    hook = sys.excepthook
+    sys.excepthook = lambda t, v, tb: sys.stderr.write("%s\n" % t.__name__)
+    repl = None
+    try:
+        repl = REPL(locals={"__name__": name}, output_fn=str)
+        ename = hy.mangle("*e")
+        for i, (src, (what, arg)) in enumerate(plan):
+            out, err = io.StringIO(), io.StringIO()
+            before = repl.locals.get(ename)
+            with contextlib.redirect_stdout(out), contextlib.redirect_stderr(err):
+                more = repl.runsource(src)
+            exc = repl.locals.get(ename)
+            exc = None if exc is before else exc
+            if what == "value":
+                got = out.getvalue().strip() if exc is None and not more else "<%s>" % (type(exc).__name__ if exc is not None else "incomplete")
+                if got != arg:
+                    kind = "leaked" if got.startswith("loc-") else "wrong"
+                    return "session:%s-macro-after-failed-scope" % kind if any(w == "error" and a == "compile" for _, (w, a) in plan[:i]) else "session:%s-macro" % kind, dict(
+                        step=i, input=src, expected=arg, got=got, inputs=[s for s, _ in plan])
+            else:
+                want = HyLanguageError if arg == "compile" else NameError
+                if not isinstance(exc, want):
+                    return "session:expected-%s-error" % arg, dict(step=i, input=src, got=out.getvalue().strip() or repr(exc), inputs=[s for s, _ in plan])
+        keys = {hy.unmangle(k) for k in repl.locals.get("_hy_macros", {})}
+        if keys != final:
+            return "session:module-macro-table", dict(expected=sorted(final), got=sorted(keys), inputs=[s for s, _ in plan])
+        return None
+    finally:
+        sys.excepthook = hook
+        sys.modules.pop(name, None)
+        for k in list(getattr(repl, "cmdline_cache", {})):
+            linecache.cache.pop(k, None)
+        for k in ("last_exc", "last_type", "last_value", "last_traceback"):
+            if k in saved:
+                setattr(sys, k, saved[k])
+            elif hasattr(sys, k):
+                delattr(sys, k)
+
+
+_SESSION_N = [0]
+
+
+def session_strategy(max_steps):
+    from hypothesis import strategies as st
+
+    name = st.sampled_from(SESSION_NAMES)
+    step = st.one_of(
+        st.tuples(st.just("def"), name).map(list),
+        st.tuples(st.just("call"), name).map(list),
+        st.tuples(st.just("call"), name).map(list),
+        st.tuples(st.just("scoped"), st.sampled_from(SESSION_SCOPES), name, st.integers(0, len(SESSION_ERRORS) - 1)).map(list),
+        st.tuples(st.just("scoped"), st.sampled_from(SESSION_SCOPES), name, st.integers(1, len(SESSION_ERRORS) - 1)).map(list),
+    )
+    return st.lists(step, min_size=3, max_size=max_steps).map(lambda steps: dict(session=steps + [["call", n] for n in SESSION_NAMES]))
+
+
+def session_grid(full=True):
+    """every scope kind x compile error, with the name defined at module level before, after or never"""
+    for ki, kind in enumerate(SESSION_SCOPES):
+        for e in range(len(SESSION_ERRORS)):
+            for when in ("before", "after", "never"):
+                steps = ([["def", "m1"]] if when == "before" else []) + [["scoped", kind, "m1", e], ["call", "m1"]]
+                steps += ([["def", "m1"], ["call", "m1"]] if when == "after" else []) + [["def", "m2"], ["call", "m2"], ["call", "m1"]]
+                yield dict(session=steps), "grid:session"
+
+
+def _session_one(ctx, case, origin):
+    plan, _ = render_session(case["session"])
+    text = "\n".join(s for s, _ in plan)
+    seen_err = False
+    nontrivial = False
+    for _, (w, a) in plan:
+        if w == "error" and a == "compile":
+            seen_err = True
+        elif seen_err:
+            nontrivial = True  # something is observed after an input whose scope was abandoned by a compile error
+    ctx.case(key=text, nontrivial=nontrivial, cls=[origin, "session"], sample=text[:2000])
+    r = check_session(case)
+    if r is not None:
+        ctx.fail(case, r[0], r[1])
 
 
 # ---------------------------------------------------------------------------------------------------------
@@ -418,7 +586,20 @@ def _explore(ctx):
             for case in cases:
                 yield case, "random"
 
-    sources = [[grid_iter(require_grid), 1], [grid_iter(pragma_grid), 1], [grid_iter(precedence_grid), 1], [random_iter(), 4]]
+    def session_iter():
+        total = ctx.per_shard(400, 8000)
+        rnd = 0
+        while total > 0:
+            rnd += 1
+            m = min(60, total)
+            total -= m
+            cases = []
+            ctx.hyp(session_strategy(8 if ctx.quick else 14), cases.append, m, "sessions-%d" % rnd)
+            for case in cases:
+                yield case, "random:session"
+
+    sources = [[grid_iter(require_grid), 1], [grid_iter(pragma_grid), 1], [grid_iter(precedence_grid), 1], [random_iter(), 4],
+               [grid_iter(session_grid), 1], [session_iter(), 2]]
     while sources:
         for src in list(sources):
             for _ in range(src[1]):
@@ -429,4 +610,4 @@ def _explore(ctx):
                 except StopIteration:
                     sources.remove(src)
                     break
-                _one(ctx, case, origin)
+                (_session_one if "session" in case else _one)(ctx, case, origin)
